@@ -268,6 +268,9 @@ def main():
                     dist[s["name"] + "." + k] = v
             if st["go_rc"] != 0:
                 broken.append({"kind": "harness-crash", "what": st["go_err"]})
+                killer = lib.attribute_crash(st, go, workdir, s["name"])
+                if killer:
+                    first_flags.append(killer)
             if st["lean_rc"] != 0:
                 broken.append({"kind": "driver-crash", "what": st["lean_err"]})
     # direct violations found by the property's own oracle on the implementation
